@@ -52,7 +52,9 @@ extern "C" ssize_t simk_read(int fd, void *buf, size_t n)
 	int64_t a;
 	if (fault_here(F_READ_ERR, C().rate_read_err, &a, 2)) { errno = a ? EIO : EINTR; return -1; }
 	if (n > 1 && fault_here(F_READ_SHORT, C().rate_read_short, &a, (int64_t)n - 1)) n = (size_t)a + 1;
-	return read(fd, buf, n);
+	ssize_t r = read(fd, buf, n);
+	if (r >= 0 && in_task() && shim_hooks().on_read) shim_hooks().on_read(fd, (long)r);
+	return r;
 }
 extern "C" ssize_t simk_write(int fd, const void *buf, size_t n)
 {
@@ -62,7 +64,13 @@ extern "C" ssize_t simk_write(int fd, const void *buf, size_t n)
 	if (n > 1 && fault_here(F_WRITE_SHORT, C().rate_write_short, &a, (int64_t)n - 1)) n = (size_t)a + 1;
 	return write(fd, buf, n);
 }
-extern "C" int simk_pipe(int fds[2]) { shim_call(S_PIPE); return pipe(fds); }
+extern "C" int simk_pipe(int fds[2])
+{
+	shim_call(S_PIPE);
+	int r = pipe(fds);
+	if (r == 0 && in_task() && shim_hooks().on_pipe) shim_hooks().on_pipe(fds[0], fds[1]);
+	return r;
+}
 extern "C" int simk_fcntl(int fd, int cmd, ...)
 {
 	va_list ap; va_start(ap, cmd); long arg = va_arg(ap, long); va_end(ap);
@@ -114,6 +122,8 @@ static bool ep_ready(void *p)
 	return w->got != 0;
 }
 
+static bool never_ready(void *) { return false; }
+
 extern "C" int simk_epoll_wait(int ep, struct epoll_event *evs, int max, int timeout)
 {
 	if (!in_task()) return epoll_wait(ep, evs, max, timeout);
@@ -124,26 +134,28 @@ extern "C" int simk_epoll_wait(int ep, struct epoll_event *evs, int max, int tim
 	int64_t deadline = timeout < 0 ? -1 : now_ns() + (int64_t)timeout * 1000000LL;
 	int got;
 	for (;;) {
+		// the outside world does whatever was scheduled up to now
+		int64_t nx;
+		while (H.next_external_event_ns && (nx = H.next_external_event_ns()) >= 0 && nx <= now_ns()) H.do_external_event();
 		got = epoll_wait(ep, evs, max, 0);
 		if (got != 0) break;
 		if (timeout == 0) break;
-		// nothing ready: let scripted external events happen, in virtual-time order
-		int64_t nx = H.next_external_event_ns ? H.next_external_event_ns() : -1;
+		// nothing ready: jump to the next scripted external event if it comes before the deadline
+		nx = H.next_external_event_ns ? H.next_external_event_ns() : -1;
 		if (nx >= 0 && (deadline < 0 || nx <= deadline)) {
 			if (nx > now_ns()) advance_ns(nx - now_ns());
-			H.do_external_event();
 			continue;
 		}
 		if (n_tasks() > 1) {
 			EpWait w; w.ep = ep; w.evs = evs; w.max = max; w.got = 0;
 			int r = block_until(ep_ready, &w, deadline, S_EPOLL_WAIT);
-			if (r == 0) { got = w.got; if (got == 0) got = epoll_wait(ep, evs, max, 0); break; }
-			got = 0;
+			got = r == 0 ? (w.got > 0 ? w.got : epoll_wait(ep, evs, max, 0)) : 0;
 			break;
 		}
 		if (deadline < 0) {
-			// single task, nothing can ever happen: blocked for ever
-			block_until(ep_ready, NULL, -1, S_EPOLL_WAIT);   // lets the scheduler report it
+			// single task and nothing can ever happen
+			if (H.on_blocked_forever && H.on_blocked_forever() == 0) { got = 0; break; }
+			block_until(never_ready, NULL, -1, S_EPOLL_WAIT);   // reported by the scheduler as a deadlock
 			got = 0;
 			break;
 		}
@@ -156,7 +168,7 @@ extern "C" int simk_epoll_wait(int ep, struct epoll_event *evs, int max, int tim
 	if (got > 1 && fault_here(F_EPOLL_SHUFFLE, C().rate_epoll_shuffle, &a, 1 << 30)) {
 		Rng r((uint64_t)a);
 		for (int i = got - 1; i > 0; i--) std::swap(evs[i], evs[r.below((uint64_t)i + 1)]);
-		got = 1 + (int)r.below((uint64_t)got);
+		if (!C().epoll_no_truncate) got = 1 + (int)r.below((uint64_t)got);
 	}
 	return got;
 }
